@@ -1,6 +1,8 @@
+pub mod genconf;
 pub mod names;
 pub mod problems;
 pub mod run;
+pub mod snode;
 
 use mahf::{state::common::Populations, Individual, Problem, Random, State};
 
